@@ -973,6 +973,12 @@ class History:
         m2 = pickle.loads(pickled)
         m2.process()
         self.record(proj, True, "optim", m2, what=" (second unpickling of the same bytes, after the first copy was edited and run)")
+        # the same edit on a model that was never copied or pickled: what is simulated is a function of the instructions the model holds when process() starts
+        from atomica.model import Model
+        m3 = Model(*inp.args(True))
+        edit_in_place(m3.program_instructions, edit)
+        m3.process()
+        self.record(proj, True, "optim", m3, edit=edit, what=" (freshly built model, never copied, instructions edited in place before process())")
 
     def op_alias(self, proj, prog, o):
         """Model.__init__ must copy what it keeps: private inputs are edited after construction (and again after the run)"""
@@ -1484,6 +1490,40 @@ def probe_partial_initialization(ctx):
                           {"probe": "partial-initialization", "demo": name, "dropped": [list(k) for k in drop]})
 
 
+def probe_progset_assembly(ctx):
+    """Directed probe: 'the outputs are a function of the inputs alone' also for program sets assembled in code. Two program sets are built one after the other in
+    this process with ProgramSet.new / add_program and their targeting is filled in place (prog.target_pops.append(...), prog.target_comps.extend(...)), as the
+    documentation shows; what was set up for the first must not show in the programs created for the second, and a third, untouched one must start empty."""
+    import atomica as at
+    import sciris as sc
+
+    for name in (["udt", "tb_simple"] if ctx.quick else ["udt", "tb_simple", "usdt", "hypertension", "hiv"]):
+        try:
+            P = demo_master(name)
+            fw, data = P.framework, P.data
+            pops = list(data.pops.keys())
+            comps = [c for c in fw.comps.index if fw.comps.at[c, "is source"] == "n" and fw.comps.at[c, "is sink"] == "n" and fw.comps.at[c, "is junction"] == "n"]
+            g1 = at.ProgramSet.new(tvec=np.array([2016.0]), progs={"aa": "Prog A"}, framework=fw, data=data)
+            g1.programs["aa"].target_pops.append(pops[0])
+            g1.programs["aa"].target_comps.extend(comps[:2])
+            g2 = at.ProgramSet.new(tvec=np.array([2016.0]), progs={"bb": "Prog B"}, framework=fw, data=data)
+            seen_pops, seen_comps = list(g2.programs["bb"].target_pops), list(g2.programs["bb"].target_comps)
+            g2.programs["bb"].target_pops.append(pops[-1])
+            g2.add_program("cc", "Prog C")
+            late_pops, late_comps = list(g2.programs["cc"].target_pops), list(g2.programs["cc"].target_comps)
+            shared = g1.programs["aa"].target_pops is g2.programs["bb"].target_pops or g1.programs["aa"].target_comps is g2.programs["bb"].target_comps
+        except Exception as e:
+            ctx.notes.append(f"progset-assembly probe on {name}: {e!r}"[:200])
+            continue
+        ctx.count("probe.progset_assembly")
+        ctx.case({"probe": "progset-assembly", "demo": name}, nontrivial=True)
+        if seen_pops or seen_comps or late_pops or late_comps or shared:
+            ctx.violation({"api": "ProgramSet.new", "case": "targeting-leaks-between-program-sets"},
+                          f"{name}: a program created after another program set was assembled in the same process starts with target_pops={seen_pops or late_pops}, target_comps={seen_comps or late_comps}"
+                          f"{' (the two programs share one list object)' if shared else ''}; a new program must start untargeted",
+                          {"probe": "progset-assembly", "demo": name})
+
+
 def run(ctx):
     src0 = source_digest()
     n = ctx.n(30, 600)
@@ -1500,6 +1540,7 @@ def run(ctx):
                 merge(ctx, res)
     probe_hashseeds(ctx)
     probe_partial_initialization(ctx)
+    probe_progset_assembly(ctx)
     if source_digest() != src0 or any(str(x).startswith("SOURCE-CHANGED") for x in ctx.notes):
         raise RuntimeError("the atomica sources changed while the check was running; observations of different code are not comparable -- run the check again")
     ctx.exhaustive = False
